@@ -460,6 +460,23 @@ func (in *Interp) relevantPC(c *term.Term) []*term.Term {
 	return out
 }
 
+// feasiblePrecise: pc ∧ c has a model in the precise interpretation (used
+// before assuming a failed assertion in order to continue the path).
+func (in *Interp) feasiblePrecise(c *term.Term) bool {
+	if in.job.Mode == "real" {
+		return true
+	}
+	rel := in.relevantPC(c)
+	asserts := in.withFacts(append(rel, c))
+	if !hasFloat(asserts) {
+		return true // feasible() was already precise
+	}
+	sc := smt.Build(in.preciseMode(), asserts)
+	r := in.proc("cvc5", in.cfg.FeasCapMs).Check(sc, false)
+	in.account(r)
+	return r.Status == "sat"
+}
+
 func (in *Interp) satisfies(m map[string]term.Val, asserts []*term.Term) bool {
 	memo := map[int]term.Val{}
 	for _, a := range asserts {
@@ -629,6 +646,15 @@ func (in *Interp) check(label string, cond *term.Term) Obligation {
 			m, weak, why := in.modelOfPC()
 			in.pc = save
 			if m == nil {
+				if why == "unsat" {
+					// the path itself is infeasible in the precise theory (it was
+					// explored because feasibility uses the UF abstraction):
+					// the implication holds vacuously
+					ob.Status = "discharged"
+					ob.Tier = "fp-path-infeasible"
+					ob.Model = nil
+					return ob
+				}
 				ob.Status = "inconclusive"
 				ob.Note = "no model for the independent part of the path condition: " + why
 				return ob
